@@ -1159,8 +1159,8 @@ impl ConfigState {
         Ok(())
     }
 
-    /// - Remove old certificate from certificates, using the old fingerprint
     /// - calculate the new fingerprint
+    /// - Remove old certificate from certificates, using the old fingerprint
     /// - insert the new certificate with the new fingerprint as key
     /// - check that the new entry is present in the certificates hashmap
     fn replace_certificate(&mut self, replace: &ReplaceCertificate) -> Result<(), StateError> {
@@ -1170,6 +1170,14 @@ impl ConfigState {
                 .map_err(|decode_error| StateError::RemoveCertificate(decode_error.to_string()))?,
         );
 
+        // Everything that can fail on the new certificate happens before the
+        // old one is removed: a rejected replacement must leave it in place.
+        let new_fingerprint = Fingerprint(
+            calculate_fingerprint(replace.new_certificate.certificate.as_bytes()).map_err(
+                |fingerprint_err| StateError::ReplaceCertificate(fingerprint_err.to_string()),
+            )?,
+        );
+
         self.certificates
             .get_mut(&replace_address)
             .ok_or(StateError::NotFound {
@@ -1177,12 +1185,6 @@ impl ConfigState {
                 id: replace.address.to_string(),
             })?
             .remove(&old_fingerprint);
-
-        let new_fingerprint = Fingerprint(
-            calculate_fingerprint(replace.new_certificate.certificate.as_bytes()).map_err(
-                |fingerprint_err| StateError::ReplaceCertificate(fingerprint_err.to_string()),
-            )?,
-        );
 
         self.certificates
             .get_mut(&replace_address)
